@@ -63,6 +63,7 @@ func Run(p *load.Program, tier string) *oblig.Set {
 	r.arrRule()
 	r.loopExit()
 	r.captures()
+	r.helperRules()
 	r.dflt()
 	r.effects()
 	return s
